@@ -92,7 +92,7 @@ Qed.
 
 (** tie to the source (translator T, re-read from the working tree on every run): the five
     functions that take storage locks -- obtainCert, renewCert, updateARI, CleanStorage,
-    newACMEClientWithAccount, deleteAccountLocallyIfCurrent (added by C20's fix f8c5e31, same
+    newACMEClientWithAccount, deleteAccountLocallyIfCurrent (added by C20's fix f0aaa6b, same
     shape) -- are the only callers of acquireLock / releaseLock, and in each the
     acquisition is followed, right after its error return, by the deferred release of the same
     storage and key (the model's [PLockWait] -> locked region -> [PUnlock] shape); releaseLock
